@@ -127,11 +127,15 @@ Definition event_of (m : rawmatch) : result ev :=
   if nonempty (strip (m_tail m)) then Err Reject                       (* ParseError: tail text *)
   else
     let text := if nonempty (m_cdata m) then m_cdata m else strip (m_text m) in
+    let start_ev := if nonempty text then OK (ELeaf (m_tag m) text)
+                    else if m_closed m then OK (EEmpty (m_tag m)) else OK (EOpen (m_tag m)) in
     match m_tag m with
-    | 47 :: t => if nonempty text then Err Reject                      (* ParseError: text after end tag *)
-                 else OK (EClose t)
-    | tag => if nonempty text then OK (ELeaf tag text)
-             else if m_closed m then OK (EEmpty tag) else OK (EOpen tag)
+    | [] => Err Crash                                                  (* assert tag  (the regex never yields it) *)
+    | c :: t =>
+      if c =? SL then                                                  (* tag.startswith("/") *)
+        if nonempty text then Err Reject                               (* ParseError: text after end tag *)
+        else OK (EClose t)
+      else start_ev
     end.
 
 (** builder state: open elements innermost first, each with its text and its finished children
